@@ -600,6 +600,8 @@ def run(ctx):
     for _ in range(ctx.scale(4000, 100000)):
         c = CLASSES[rng.integers(5)]
         nm, args, kw = ctors.ctor(rng, c, multi=rng.random() < 0.2)
+        if '_layout' not in kw and nm not in ('OA', 'Vec3') and rng.random() < 0.12:      # (OA: rounding can make the pair parallel; Vec3: |v| <= 1)
+            kw = dict(kw, _layout=['float32', 'float16', 'int'][rng.integers(3)])     # vectors (axes, angle triples) of a narrow element type
         drive(mod, ctx, 'ctor', dict(cls=c, name=nm, args=args, kwargs=kw))
     depth = 4 if ctx.tier == 'quick' else 5
     for _ in range(ctx.scale(2400, 60000)):
